@@ -55,6 +55,14 @@ for fn, nm, path, sym in COPYFAM:
           defines=['FN=%d' % fn, 'N=4', 'LAYOUT=%d' % lay], unwind=12, object_bits=10, replay=True,
           functions=[sym], bound='extents <= 4 elements, arena <= 10 elements, layout %s' % ('one arena (all placements)' if lay == 0 else 'separate exact-fit objects'),
           timeout=900, mem_gb=8)
+for fam, common, wide in ((COPYFAM, STR_COMMON, False), (WCOPYFAM, WCS_COMMON, True)):
+    for fn, nm, path, sym in fam:
+        for d in (0, 1):
+            J('B.%s.big%d' % (nm, d), COPY_PROPS, 'B', 'harness/copyfam.c', sources=[path] + common,
+              defines=['FN=%d' % fn, 'N=2', 'BIG', 'BIGDIR=%d' % d, 'LAYOUT=0'] + (['WIDE'] if wide else []), unwind=48, object_bits=10, replay=True,
+              functions=[sym], stubs=(['stubs/memset_model.c'] if wide else []), timeout=1200, mem_gb=10,
+              quick_props=['C08', 'C06'],
+              bound='dmax 33..38 (across the 0x20 memset switch), strings <= 2, dest %s src at fixed offsets of one 44-element arena' % ('below' if d == 0 else 'above'))
 for fn, nm, path, sym in WCOPYFAM:
     for lay in (0, 1):
         J('B.%s.L%d' % (nm, lay), COPY_PROPS, 'B', 'harness/copyfam.c', sources=[path] + WCS_COMMON,
